@@ -4,7 +4,7 @@
 use crate::json::J;
 use crate::prng::Rng;
 
-#[derive(Clone, Debug, PartialEq)]
+#[derive(Clone, Debug)]
 pub enum Compressor {
     Zlib {
         level: i32,
@@ -21,6 +21,8 @@ pub enum Compressor {
     Miniz {
         level: u8,
     },
+    /// the harness's own parametric encoder
+    Lz77(crate::lz77::Lz77Params),
 }
 
 impl Compressor {
@@ -35,10 +37,14 @@ impl Compressor {
             Compressor::ZlibNg { level } => format!("zlib-ng(l={})", level),
             Compressor::Libdeflate { level } => format!("libdeflate(l={})", level),
             Compressor::Miniz { level } => format!("miniz_oxide(l={})", level),
+            Compressor::Lz77(p) => p.describe(),
         }
     }
 
     pub fn random(rng: &mut Rng) -> Compressor {
+        if rng.chance(1, 8) {
+            return Compressor::Lz77(crate::lz77::Lz77Params::random(rng));
+        }
         match rng.below(10) {
             0..=4 => {
                 // zlib: mostly defaults, sometimes unusual window/memlevel/strategy
@@ -74,16 +80,17 @@ impl Compressor {
 
     /// raw DEFLATE stream of `plain`
     pub fn compress(&self, plain: &[u8]) -> Vec<u8> {
-        match *self {
+        match self {
             Compressor::Zlib {
                 level,
                 strategy,
                 window_bits,
                 mem_level,
-            } => zlib_raw(plain, level, strategy, window_bits, mem_level),
-            Compressor::ZlibNg { level } => zlibng_raw(plain, level),
-            Compressor::Libdeflate { level } => libdeflate_raw(plain, level),
-            Compressor::Miniz { level } => miniz_oxide::deflate::compress_to_vec(plain, level),
+            } => zlib_raw(plain, *level, *strategy, *window_bits, *mem_level),
+            Compressor::ZlibNg { level } => zlibng_raw(plain, *level),
+            Compressor::Libdeflate { level } => libdeflate_raw(plain, *level),
+            Compressor::Miniz { level } => miniz_oxide::deflate::compress_to_vec(plain, *level),
+            Compressor::Lz77(p) => crate::lz77::encode(plain, p),
         }
     }
 }
